@@ -70,6 +70,12 @@ _STATE = {"prepared": False, "dfa_memo": {}, "orig": {}}
 PREDS = {
     "avoid_021": lambda p: not RP.contains(p, (0, 2, 1)),
     "avoid_10": lambda p: not RP.contains(p, (1, 0)),
+    # Wilf-equivalent / symmetric properties: different data of exactly the same size
+    "avoid_120": lambda p: not RP.contains(p, (1, 2, 0)),
+    "avoid_102": lambda p: not RP.contains(p, (1, 0, 2)),
+    "avoid_01": lambda p: not RP.contains(p, (0, 1)),
+    "last_is_max": lambda p: len(p) > 0 and p[-1] == len(p) - 1,
+    "first_is_min": lambda p: len(p) > 0 and p[0] == 0,
     "even_len": lambda p: len(p) % 2 == 0,
     "first_is_max": lambda p: len(p) > 0 and p[0] == len(p) - 1,
     "inv_mod3": lambda p: sum(1 for i in range(len(p)) for j in range(i + 1, len(p)) if p[i] > p[j]) % 3 == 0,
@@ -267,6 +273,21 @@ def gen_ops(rng, tier):
     nops = rng.randint(3, 12) if rng.random() >= 0.03 else rng.randint(25, 60)  # swarm: a few long histories
     ops = []
     written = []
+    if rng.random() < 0.12:
+        # scenario: one name in two directories, data sets of equal size
+        fam = rng.choice([["avoid_021", "avoid_120", "avoid_102"], ["avoid_10", "avoid_01"], ["first_is_max", "last_is_max", "first_is_min"]])
+        name, n = rng.choice(names), rng.randint(2, maxn)
+        d1, d2 = rng.sample(["/", "/d1", "/d2", "/d1/sub"], 2)
+        seq = [{"op": "chdir", "dir": d1}, {"op": "write", "name": name, "n": n, "pred": rng.choice(fam)},
+               {"op": "chdir", "dir": d2}, {"op": "write", "name": name, "n": n, "pred": rng.choice(fam)},
+               {"op": "chdir", "dir": d1}, {"op": "write", "name": name, "n": n, "pred": rng.choice(fam)},
+               {"op": "read", "name": name, "n": n, "which": rng.choice(["good", "bad"])},
+               {"op": "chdir", "dir": d2}, {"op": "read", "name": name, "n": n, "which": rng.choice(["good", "bad"])}]
+        if rng.random() < 0.5:
+            seq.insert(rng.randrange(len(seq)), {"op": "read", "name": name, "n": n, "which": "good"})
+        ops.extend(seq)
+        written.append((name, n))
+        nops = max(0, nops - 6)
     for _ in range(nops):
         r = rng.random()
         if r < 0.25:
@@ -487,15 +508,9 @@ def _execute_history(case):
     violations = []
     real = case.get("fs") == "real"
     fs = _RealFS() if real else simfs.SimFS(case.get("faults"))
-    saved = {}
+    saved = []
     if not real:
-        for mod, names in ((mb, ("open", "os")), (mp, ("open", "Path"))):
-            for nm in names:
-                saved[(mod, nm)] = mod.__dict__.get(nm, _MISSING)
-        mb.open = fs.open
-        mb.os = simfs.make_os_shim(fs, os)
-        mp.open = fs.open
-        mp.Path = simfs.make_path_class(fs)
+        saved = [(mod, simfs.install_seams(mod, fs)) for mod in (mb, mp)]
     else:
         out.probe("realfs_run")
 
@@ -752,11 +767,8 @@ def _execute_history(case):
         if real:
             fs.close()
         else:
-            for (mod, nm), val in saved.items():
-                if val is _MISSING:
-                    mod.__dict__.pop(nm, None)
-                else:
-                    setattr(mod, nm, val)
+            for mod, sm in saved:
+                simfs.remove_seams(mod, sm)
         clear_memos()
     if not real and not case.get("faults"):
         _STATE["last_trace"] = list(fs.trace)
@@ -810,14 +822,7 @@ def _execute_concurrent(case):
     log = core.EventLog()
     violations = []
     fs = simfs.SimFS()
-    saved = {}
-    for mod, names in ((mb, ("open", "os")), (mp, ("open", "Path"))):
-        for nm in names:
-            saved[(mod, nm)] = mod.__dict__.get(nm, _MISSING)
-    mb.open = fs.open
-    mb.os = simfs.make_os_shim(fs, os)
-    mp.open = fs.open
-    mp.Path = simfs.make_path_class(fs)
+    saved = [(mod, simfs.install_seams(mod, fs)) for mod in (mb, mp)]
 
     def clear_memos():
         cc = getattr(getattr(pin, "load_dfa_for_perm", None), "cache_clear", None)
@@ -886,6 +891,8 @@ def _execute_concurrent(case):
                         r = ["v", mb.read_bisc_file(f"{op['name']}_{op['which']}_len{op['n']}")]
                 except threadsim.SimAbort:
                     raise
+                except simfs.SimfsUnsupported:
+                    raise
                 except Exception as exc:  # pylint: disable=broad-except
                     r = ["exc", type(exc).__name__, str(exc)[:120]]
                 res.append(r)
@@ -941,11 +948,8 @@ def _execute_concurrent(case):
                         violations.append(core.Violation("read_wrong_data", {"op": "concurrent"},
                                                          f"after all tasks finished {path} reads as {str(got)[:120]}, never written under that name"))
     finally:
-        for (mod, nm), val in saved.items():
-            if val is _MISSING:
-                mod.__dict__.pop(nm, None)
-            else:
-                setattr(mod, nm, val)
+        for mod, sm in saved:
+            simfs.remove_seams(mod, sm)
         clear_memos()
     out.steps = sched.steps
     out.extra["segments"] = sched.segments
